@@ -106,7 +106,12 @@ func deepSame(a, b interface{}) bool {
 // well. Every result is an Accessor whose Get() is SPEC's value and whose Set is nil exactly for
 // values that are not a location of the document; failure iff SPEC selects nothing.
 func accessorModeAgainstSpec(c *Case, res *spec.Result, st *Stats) string {
-	acc := evalLibrary(c, c.Document(), true)
+	return accessorModeOnDoc(c, c.Document(), res, st)
+}
+
+// accessorModeOnDoc is accessorModeAgainstSpec on a document the caller built.
+func accessorModeOnDoc(c *Case, doc interface{}, res *spec.Result, st *Stats) string {
+	acc := evalLibrary(c, doc, true)
 	st.Eval(1)
 	st.Class("accessor-mode")
 	if acc.parseErr != nil {
